@@ -19,7 +19,7 @@ func init() {
 	mc.Register(&mc.Property{
 		ID:    "C18",
 		Title: "Editor analysis survives any text",
-		Rule: "the C14 text space (generator scripts, every truncation, every token deletion / duplication / insertion / replacement over the 52-entry alphabet, all token soups up to length L), each analysed with CheckSource, GetSymbols, and HoverOn + GotoDefinition at EVERY position (every line, every character 0..len+1); " +
+		Rule: "the C14 text space (generator scripts, every truncation, every token deletion / duplication / insertion / replacement over the " + alphaN + "-entry alphabet, all token soups up to length L), each analysed with CheckSource, GetSymbols, and HoverOn + GotoDefinition at EVERY position (every line, every character 0..len+1); " +
 			"oracle: no panic; every diagnostic starts inside the text or at its end and does not end before it starts; analysing the same text again yields the same SET of diagnostics and symbols (map-iteration orders are additionally permuted exhaustively by the instrumented C11 build's map-order seam, see DESIGN 3.4); " +
 			"non-trivial = the text was edited / is a soup; distinct = the text",
 		Assumptions: []string{"set equality of diagnostics is judged on (range, severity, message)"},
